@@ -21,6 +21,10 @@ pub struct FsKnobs {
 }
 
 impl FsKnobs {
+    /// Distinct clock readings are stored as distinct timestamps.
+    pub fn strict_order(&self) -> bool {
+        self.gran_ns == 1 && matches!(self.regime, ClockRegime::Micros | ClockRegime::Millis | ClockRegime::Seconds)
+    }
     pub fn describe(&self) -> String {
         format!("gran={}ns atime={:?} readdir_batch={} clock={:?}", self.gran_ns, self.atime, self.batch, self.regime)
     }
